@@ -80,7 +80,7 @@ def rot_step(draw):
     if draw(st.integers(0, 7)) == 0:
         return {"kind": "clear"}
     kind = draw(st.sampled_from(["axis-angle", "axis-angle", "euler", "align"]))
-    s = {"kind": kind, "n": None if draw(st.booleans()) else [draw(st.integers(2, 7)) for _ in range(3)]}
+    s = {"kind": kind, "n": None if draw(st.booleans()) else [draw(st.integers(2, 9)) for _ in range(3)]}
     if kind == "axis-angle":
         s["axis"] = list(draw(st.sampled_from(AXES)))
         s["deg"] = draw(st.sampled_from([90, 180, -90, 30, 45, 17, -120, 200, 61, 1, 359]))
@@ -102,7 +102,7 @@ def rot_step(draw):
 
 @st.composite
 def rotator_case(draw):
-    g = draw(gen.geom(ndim=3, nmin=2, nmax=6, exps=(-9, 3), big_offsets=False, maxcells=150, tol=False))
+    g = draw(gen.geom(ndim=3, nmin=draw(st.sampled_from([2, 3, 4])), nmax=6, exps=(-9, 3), big_offsets=False, maxcells=220, tol=False))
     kind = draw(st.sampled_from(["uniform-vector", "uniform-vector", "linear-scalar", "random-vector", "random-scalar",
                                  "uniform-scalar"]))
     return {"g": g, "kind": kind, "v": [draw(st.integers(-5, 5)) for _ in range(3)], "a": [draw(st.integers(-3, 3)) for _ in range(3)],
@@ -316,5 +316,6 @@ def check_refuse(case):
 SUBS = [
     Sub("rotator", check_rotator, rotator_case(), nontrivial=nontrivial, quick=250, thorough=2000),
     Sub("quarter-turn", check_quarter, quarter_case(), quick=150, thorough=1000),
-    Sub("refuse", check_refuse, refuse_case(), quick=40, thorough=100),
+    Sub("refuse", check_refuse, enum=lambda tier: ({"kind": k, "seed": 0} for k in
+        ["nvdim2", "nvdim4", "ndim2", "ndim1", "ndim4", "empty-mapping", "partial-mapping", "nonaxis-mapping", "unknown-method"])),
 ]
